@@ -15,6 +15,7 @@ import (
 type DisjCase struct {
 	Plain []Expr
 	Disjs [][]dj
+	Nest  []int // per disjunction: position from which the disjuncts are written as a nested disjunction (-1: flat)
 }
 
 // themed disjunct: most disjuncts of a case share a kind so that tuples survive
@@ -119,16 +120,23 @@ func (g *Gen) disjCase() DisjCase {
 			common.Shuffle(g.r, d)
 		}
 		c.Disjs = append(c.Disjs, d)
+		// nested spellings are not generated: on the unchanged tree `{} | (*{b: 1} | *"y")` and the flat
+		// `{} | *{b: 1} | *"y"` already resolve differently (design/Core.md, observation O-nested)
+		c.Nest = append(c.Nest, -1)
 	}
 	return c
 }
 
+// CUE renders the case.  With nest >= 0 the disjuncts of every disjunction from position
+// nest[i] on are written as a NESTED disjunction `a | (b | *c)` when no disjunct before that
+// position is marked: by rule D1 (an unmarked disjunction keeps the defaults of its terms) this
+// denotes the same value/default pair as the flat spelling the model reads.
 func (c DisjCase) CUE() string {
 	var parts []string
 	for _, p := range c.Plain {
 		parts = append(parts, "("+p.CUE()+")")
 	}
-	for _, d := range c.Disjs {
+	for i, d := range c.Disjs {
 		var ds []string
 		for _, x := range d {
 			s := x.E.CUE()
@@ -137,7 +145,21 @@ func (c DisjCase) CUE() string {
 			}
 			ds = append(ds, s)
 		}
-		parts = append(parts, "("+strings.Join(ds, " | ")+")")
+		split := -1
+		if i < len(c.Nest) {
+			split = c.Nest[i]
+		}
+		ok := split >= 1 && split <= len(d)-2
+		for j := 0; ok && j < split; j++ {
+			if d[j].Marked {
+				ok = false
+			}
+		}
+		if ok {
+			parts = append(parts, "("+strings.Join(ds[:split], " | ")+" | ("+strings.Join(ds[split:], " | ")+"))")
+		} else {
+			parts = append(parts, "("+strings.Join(ds, " | ")+")")
+		}
 	}
 	return strings.Join(parts, " & ")
 }
@@ -164,7 +186,7 @@ func (c DisjCase) Case() string {
 // canonNoProbe: the Core canonical form without closedness probes
 func canonNoProbe(ctx *cue.Context, v cue.Value) string {
 	c := newCanon(ctx, "", "")
-	c.simple = true
+	c.simple = false // the resolved value's own acceptance is compared too (a default must be committed)
 	s := c.canon(v, []string{"x"})
 	for id := range c.nodes {
 		s = strings.Replace(s, fmt.Sprintf("|@%d@", id), "", 1)
